@@ -276,6 +276,80 @@ def prop_sampler(case, rec):
     rec.case(case, multi, cls, n=n_eval)
 
 
+# ---------------------------------------------------------------- scale: thousands of base structures
+def prop_many_base(case, rec):
+    """The base-structure draw over a list of `n` structures (real rulesets have > 10 000): the draw is swept over break points deep
+    in the list, one ulp around them and interval mid-points; the selected structure must be the interval containing the draw."""
+    from .. import guesser
+    import lib_guesser.pcfg_grammar as pgm
+    import itertools
+    n, step = case['n'], case['step']
+    names = ['D1', 'D2', 'D3', 'O1', 'O2', 'K4', 'Y1', 'X1']
+    vals = {'D1': '1', 'D2': '11', 'D3': '111', 'O1': '!', 'O2': '!!', 'K4': 'qwer', 'Y1': '1999', 'X1': '#1'}
+    structs = [''.join(t) for ln in (1, 2, 3, 4, 5) for t in itertools.product(names, repeat=ln)][:n]
+    w = [1.0 / (i + 3) for i in range(len(structs))]
+    tot = sum(w)
+    m = {'encoding': 'utf-8', 'uuid': 'c16-many', 'vars': {k: [[1.0, [v]]] for k, v in vals.items()},
+         'base': [[s_, x / tot] for s_, x in zip(structs, w)], 'm_levels': []}
+    rdir = os.path.join(_dir(), 'MB')
+    rsmodel.write_ruleset(rdir, m)
+    g = guard(case, guesser.load, rdir)
+    vs, base = rsmodel.effective(m, False, False)
+    bcum, acc = [], Fraction(0)
+    for toks, bp, s_ in base:
+        acc += Fraction(bp)
+        bcum.append(acc)
+    total = bcum[-1]
+    ftotal = 0
+    for toks, bp, s_ in base:
+        ftotal += bp
+    import bisect
+    tol = Fraction(1, 10 ** 12)
+
+    def near(target):
+        # expected_index() by bisection: the interval containing the target, plus the neighbours of a break point within 1e-12
+        j0 = min(bisect.bisect_left(bcum, target), len(bcum) - 1)
+        out = {j0}
+        for j in (j0 - 1, j0, j0 + 1):
+            if 0 <= j < len(bcum) and abs(target - bcum[j]) <= tol * bcum[j]:
+                out.add(j)
+                if j + 1 < len(bcum):
+                    out.add(j + 1)
+        return out
+
+    script = Script()
+    saved = pgm.random
+    pgm.random = types.SimpleNamespace(random=script.random, choice=script.choice, seed=script.seed, randint=script.randint)
+    n_eval = 0
+    try:
+        picks = sorted(set(list(range(0, len(base), step)) + [0, 1, 255, 256, 511, 512, 513, len(base) - 2, len(base) - 1]))
+        for i in picks:
+            if not 0 <= i < len(base):
+                continue
+            f = float(bcum[i] / total)
+            lo = float((bcum[i - 1] if i else Fraction(0)) / total)
+            for u in (f, math.nextafter(f, 0.0), math.nextafter(f, 2.0), (lo + f) / 2):
+                if not 0.0 <= u < 1.0:
+                    continue
+                script.draws[:] = [u] + [0.0] * 8
+                pt = guard(case, g.random_walk)
+                n_eval += 1
+                toks = [t for t, _ in pt['pt']]
+                ok = near(Fraction(u) * total) | near(Fraction(u * ftotal))
+                got = [j for j in ok if base[j][0] == toks]
+                if not got:
+                    where = next((j for j, (tk, _, _) in enumerate(base) if tk == toks), None)
+                    raise Violation('base_selection', f'{len(base)} base structures, draw u={u!r}: selected structure #{where} {toks}, the draw lies in the interval of '
+                                    f'structure #{sorted(ok)} (cumulative {f!r})', case)
+    finally:
+        pgm.random = saved
+    rec.case({'base_structures': len(base), 'draws': n_eval}, True, ['base_list_of_%d_structures' % len(base)], key=['many_base', n, step], n=n_eval)
+
+
+def run_many_base(rec, seed, shard, nshards, tier):
+    prop_many_base({'n': {'quick': 3000, 'thorough': 12000}[tier], 'step': {'quick': 13, 'thorough': 17}[tier]}, rec)
+
+
 def run_sampler(rec, seed, shard, nshards, tier):
     n = {'quick': 40, 'thorough': 1200}[tier]
     core.hyp_run(rec, prop_sampler, norm_rulesets(), n, seed)
@@ -499,6 +573,7 @@ def run_cli(rec, seed, shard, nshards, tier):
 
 
 PARTS = [
+    Part('many_base_structures', run_many_base, prop_many_base, {'quick': 1, 'thorough': 1}),
     Part('sampler_breakpoints', run_sampler, prop_sampler, {'quick': 8, 'thorough': 16}),
     Part('end_to_end', run_e2e, prop_e2e, {'quick': 4, 'thorough': 16}),
     Part('cli_reproducible', run_cli, prop_cli, {'quick': 4, 'thorough': 8}),
